@@ -52,7 +52,26 @@ func genNotifier(g *gen) {
 		// the second cluster always exists (a response for a cluster the notifier has never listed cannot occur)
 		g.emit("N group %s %s", hexName("c1"), hexName(groups[g.intn(2)]))
 		steps := 8 + g.intn(28)
+		listing := func(drop bool) string {
+			// what storage lists: the groups registered above (c0: the first ng, c1: one of the first two — re-listed in
+			// full so that nothing disappears), optionally without one c0 group
+			var c0 []string
+			for k := 0; k < ng; k++ {
+				if drop && k == ng-1 && ng > 1 {
+					continue
+				}
+				c0 = append(c0, hexName(groups[k]))
+			}
+			return hexName("c0") + "=" + strings.Join(c0, ",") + ";" + hexName("c1") + "=" + hexName(groups[0]) + "," + hexName(groups[1])
+		}
 		for s := 0; s < steps; s++ {
+			if s > 2 && g.chance(1, 14) {
+				// the periodic refresh of the group records, in the middle of whatever incidents are open
+				g.emit("N refresh %s 0", listing(g.chance(1, 3)))
+			} else if i%200 == 17 && s == steps/2 {
+				// … and one that meets a storage subsystem too busy to take the consumer-list requests
+				g.emit("N refresh %s 1", listing(false))
+			}
 			// time passes before (almost) every evaluation; multiples of 8 ms that never sum to a whole second
 			// (always: with a zero shift the real code sees a few microseconds, the model exactly 0)
 			g.emit("N shift %d", g.pick(0, 0, 0, 1, 1, 2, 4, 5, 6, 30, 61)*1000+8)
@@ -119,6 +138,7 @@ type notifierRunner struct {
 	ids      map[string]int
 	tRef     time.Time
 	cumShift int64 // ms
+	app      *protocol.ApplicationContext
 }
 
 func (nr *notifierRunner) freeze() {
@@ -168,7 +188,8 @@ func runNotifier(r *runner) {
 				modules[p[0]] = m
 				resolved = append(resolved, strings.Join(p[:5], ":"))
 			}
-			nr.n = verifhook.NewNotifier(&protocol.ApplicationContext{}, modules, 1)
+			nr.app = &protocol.ApplicationContext{}
+			nr.n = verifhook.NewNotifier(nr.app, modules, 1)
 			nr.tRef = time.Now()
 			r.resolve("N cfg %s", strings.Join(resolved, ";"))
 			r.reply("ok")
@@ -179,6 +200,47 @@ func runNotifier(r *runner) {
 		case "delgroup":
 			r.resolve("%s", line)
 			nr.n.DeleteGroup(unhexName(f[2]), unhexName(f[3]))
+			r.reply("ok")
+		case "refresh":
+			// N refresh <cluster=group,group;…> <stall>: one REAL refresh of the group records (processClusterList /
+			// processConsumerList) against a scripted storage; stall=1: storage answers the cluster list and then takes
+			// no request for a while, so every consumer-list request is given up after its one-second timeout
+			r.resolve("%s", line)
+			var names []string
+			groups := map[string][]string{}
+			if f[2] != "-" {
+				for _, e := range strings.Split(f[2], ";") {
+					kv := strings.SplitN(e, "=", 2)
+					c := unhexName(kv[0])
+					names = append(names, c)
+					groups[c] = []string{}
+					if len(kv) == 2 && kv[1] != "" {
+						for _, g := range strings.Split(kv[1], ",") {
+							groups[c] = append(groups[c], unhexName(g))
+						}
+					}
+				}
+			}
+			ch := make(chan *protocol.StorageRequest)
+			nr.app.StorageChannel = ch
+			done := make(chan struct{})
+			stall := f[3] == "1"
+			go func() {
+				defer close(done)
+				req := <-ch
+				req.Reply <- names
+				if stall {
+					time.Sleep(time.Duration(len(names))*1050*time.Millisecond + 100*time.Millisecond)
+					return
+				}
+				for range names {
+					req := <-ch
+					req.Reply <- groups[req.Cluster]
+				}
+			}()
+			nr.n.Refresh()
+			<-done
+			time.Sleep(4 * time.Millisecond)
 			r.reply("ok")
 		case "shift":
 			r.resolve("%s", line)
